@@ -1,23 +1,96 @@
-"""Glue between property modules and the pyvc engine (filled in as the engine
-grows).  run_for(ctx, prop) generates and discharges the obligations owned or
-relied on by the property; level_for says which level this run supports."""
+"""Glue between property modules and the pyvc engine.
+
+run_for(ctx, prop): generate and discharge the obligations of every function the
+property puts under contract (its own and the callee contracts it relies on).
+level_for(ctx, prop): apply the verdict table of DESIGN.md section 1 to the
+obligations that were not discharged, then say which level this run supports."""
+import json
+import os
+
+from .. import core
+
+# properties whose deciding part is deductive when every owned obligation discharges
+PROOF_LEVEL = {'C13', 'C14'}
+
+
+def baseline():
+    if not os.path.exists(core.BASELINE):
+        return {}
+    with open(core.BASELINE) as fh:
+        return json.load(fh).get('discharged', {})
 
 
 def run_for(ctx, prop):
-    try:
-        from ..pyvc import engine
-    except ImportError:
+    from ..pyvc import run
+    fns = run.PROPERTY_FUNCTIONS.get(prop)
+    if not fns:
         return
-    engine.run_property(ctx, prop)
+    res = run.run_functions(ctx, fns)
+    ctx._ded = {'failed': [], 'foreign_failed': [], 'results': res}
+    for r in res:
+        q = r['function']
+        if 'crash' in r:
+            raise RuntimeError('pyvc crashed on %s: %s' % (q, r['crash']))
+        if 'extraction_failure' in r:
+            ctx.undecided.append('extraction=%s: %s (tool limit, not a defect; the bounded stand-in decides)' % (q, r['extraction_failure']))
+            ctx.functions.append({'function': q, 'status': 'extraction failure', 'reason': r['extraction_failure']})
+            continue
+        owner = r.get('owner') or prop
+        ctx.functions.append({'function': q, 'file': r['file'], 'lines': r['lines'], 'source_sha256_16': r['sha256_16'],
+                              'obligations': len(r['obligations']), 'owner': owner,
+                              'discharged': sum(1 for o in r['obligations'] if o['status'] == 'discharged'),
+                              'seconds': round(r['seconds'], 2),
+                              'vacuity_probes': {p['name'].split(':probe:')[1]: p['result'] for p in r['probes']}})
+        for p in r['probes']:
+            if p['name'].endswith(':probe:entry') and p['result'] == 'refutable':
+                raise RuntimeError('contract of %s has a contradictory precondition (vacuity guard)' % q)
+        for o in r['obligations']:
+            if owner == prop:
+                ctx.obligation(o['name'], o['status'], o['backend'], o['seconds'], owner, o['tags'], o['detail'])
+            if o['status'] != 'discharged':
+                (ctx._ded['failed'] if owner == prop else ctx._ded['foreign_failed']).append((q, o, owner))
+    if not ctx.obligations and any('extraction failure' != f.get('status') for f in ctx.functions):
+        pass
+    from ..pyvc.run import TRUSTED
+    for t in TRUSTED.get(prop, []) + TRUSTED['*']:
+        if t not in ctx.trusted:
+            ctx.trusted.append(t)
+    for a in core.PYTHON_SEMANTICS_ASSUMED:
+        if a not in ctx.assumptions:
+            ctx.assumptions.append(a)
 
 
 def level_for(ctx, prop):
-    own = [o for o in ctx.obligations]
-    if own and all(o['status'] == 'discharged' for o in own) and \
-            prop in PROOF_LEVEL:
+    ded = getattr(ctx, '_ded', None)
+    if ded is None:
+        return 'exploration'
+    base = baseline()
+    bounded_found = [v for v in ctx.violations]
+    for q, o, owner in ded['foreign_failed']:
+        ctx.assumption_broken.append('callee=%s (%s; reported under %s)' % (o['name'], o['status'], owner))
+    for q, o, owner in ded['failed']:
+        if bounded_found:
+            # the bounded stand-in produced a failing input on the real code: that is the violation;
+            # the failed obligation is attached to it
+            for v in bounded_found[:1]:
+                v.obligation = (v.obligation + '; ' if v.obligation else '') + o['name']
+                v.solver_output = (v.solver_output or '') + ' %s: %s' % (o['name'], o['detail'] or o['status'])
+            continue
+        if o['name'] in base:
+            ctx.violation(core.Violation(
+                prop, 'obligation:' + o['name'].split(':', 1)[1].split(':')[0], 'obligation %s was discharged on the unchanged tree and now fails (%s)'
+                % (o['name'], o['detail'] or o['status']), attrs={'obligation': o['name']}, obligation=o['name'],
+                solver_output=o['detail'] or o['status'], no_input=True,
+                details='no failing input found by the bounded stand-in within its scope; the replay file names the failed obligation'))
+        else:
+            ctx.undecided.append('obligation=%s (%s; not in the baseline of discharged obligations)' % (o['name'], o['detail'] or o['status']))
+    if len(ctx.obligations) == 0:
+        return 'exploration'
+    # vacuity guard on the number of obligations
+    expected = sum(1 for n, meta in base.items() if meta.get('owner') == prop)
+    failed_fns = set(f['function'] for f in ctx.functions if f.get('status') == 'extraction failure')
+    if expected and not failed_fns and len(ctx.obligations) < expected * 0.5:
+        raise RuntimeError('only %d obligations generated for %s, the baseline has %d (vacuity guard)' % (len(ctx.obligations), prop, expected))
+    if prop in PROOF_LEVEL and all(o['status'] == 'discharged' for o in ctx.obligations) and not ctx.undecided:
         return 'proof'
     return 'exploration'
-
-
-# properties whose deciding part is deductive (see DESIGN.md section 0)
-PROOF_LEVEL = set()
